@@ -54,7 +54,12 @@ func vcValues(rnd *rand.Rand, max uint64) []uint64 {
 	if max >= 1 {
 		vs = append(vs, 1, max-1, max/2)
 	}
-	for i := 0; i < 6; i++ {
+	// thorough tier: 120 random values per family instead of 6
+	nr := 6
+	if os.Getenv("VERIF_TIER") == "thorough" {
+		nr = 120
+	}
+	for i := 0; i < nr; i++ {
 		if max == ^uint64(0) {
 			vs = append(vs, rnd.Uint64())
 		} else {
@@ -65,7 +70,7 @@ func vcValues(rnd *rand.Rand, max uint64) []uint64 {
 }
 
 // prop: C03 C04
-// bound: every alignment 0..7 x every width 1..64 x 11 values per width (0, 1, max, max-1, max/2, 6 random)
+// bound: every alignment 0..7 x every width 1..64 x 11 values per width (0, 1, max, max-1, max/2, 6 random; 120 random in the thorough tier, here and in the other families)
 func vcBounded_putBitsValue() {
 	rnd := vcSeed()
 	for off := 0; off < 8; off++ {
